@@ -962,6 +962,26 @@ static int parse_spec (const char *s, unsigned char *mem)
 	return 0;
 }
 
+/* prelude "P<dr>": an earlier decoder session of the same codec, field, k and symbol length but with G.r + dr repair symbols has
+ * rebuilt a lost source symbol in this process and was released (what a receiver does block after block; whatever it leaves
+ * behind for the next session - a cached context, a matrix - must not depend on the old n). No oracle: it only sets the stage. */
+static void prelude_session (int dr)
+{
+	of_session_t *s = NULL; int r = G.r + dr, i; void **st;
+	of_codec_id_t id = G.codec == 1 ? OF_CODEC_REED_SOLOMON_GF_2_8_STABLE : OF_CODEC_REED_SOLOMON_GF_2_M_STABLE;
+	if (r < 1 || (G.codec != 1 && G.codec != 2)) return;
+	if (of_create_codec_instance (&s, id, OF_DECODER, 0) != OF_STATUS_OK || !s) return;
+	if (G.codec == 1) { of_rs_parameters_t p; memset (&p, 0, sizeof p); p.nb_source_symbols = (UINT32) G.k; p.nb_repair_symbols = (UINT32) r; p.encoding_symbol_length = (UINT32) G.len; if (of_set_fec_parameters (s, (of_parameters_t *) &p) != OF_STATUS_OK) { of_release_codec_instance (s); return; } }
+	else { of_rs_2_m_parameters_t p; memset (&p, 0, sizeof p); p.nb_source_symbols = (UINT32) G.k; p.nb_repair_symbols = (UINT32) r; p.encoding_symbol_length = (UINT32) G.len; p.m = (UINT16) G.m; if (of_set_fec_parameters (s, (of_parameters_t *) &p) != OF_STATUS_OK) { of_release_codec_instance (s); return; } }
+	for (i = 1; i < G.k; i++) of_decode_with_new_symbol (s, CW[i], (UINT32) i);
+	of_decode_with_new_symbol (s, CW[G.k + r - 1], (UINT32) (G.k + r - 1));
+	if (!of_is_decoding_complete (s)) of_finish_decoding (s);
+	st = calloc ((size_t) G.k, sizeof (void *));
+	if (of_get_source_symbols_tab (s, st) == OF_STATUS_OK) for (i = 0; i < G.k; i++) if (st[i] && st[i] != CW[i]) free (st[i]);
+	free (st);
+	of_release_codec_instance (s);
+}
+
 static void run_scenario (const char *ops)
 {
 	world_t *w;
@@ -974,6 +994,7 @@ static void run_scenario (const char *ops)
 	snprintf (g_case, sizeof g_case, "%s %s ops=%s", c, r, ops);
 	memcpy (vf_slot (), g_case, sizeof g_case);
 	vf_stat_add (st_exec, 1);
+	if (ops[0] == 'P') prelude_session (atoi (ops + 1));
 	w = world_new ();
 	if (!world_open (w)) { world_close (w); free (mem); return; }
 	if (!strncmp (ops, "Q,", 2) && ops[2]) { w->quiet = 1; g_mute = 1; }
@@ -1234,6 +1255,13 @@ static void build_large (int thorough, const char *which)
 				add_scen (c0, "Rx0.%d/%d.%d,F", k - 1, k, k + 2);
 				add_scen (c0, "Bx0.1.%d/%d.%d.%d", k - 1, k, k + 1, k + 2);
 				if (k & 1) add_scen (c0, "Sa-,F");
+			}
+		/* block after block with the same k and a growing n: an earlier session (n-k = 3) has decoded, this one (n-k = 5) needs its last repair symbols */
+		for (codec = 1; codec <= 2; codec++)
+			for (k = 1; k <= 250; k += thorough ? 1 : (k < 24 ? 1 : 5)) {
+				c0 = NCF; add_cfg (codec, 8, k, 5, 0, 0, 4, 0, 0, 0);
+				add_scen (c0, "P-2,Rx%d/%d,F", k / 2, k + 4); add_scen (c0, "P-2,Sx0/%d,F", k + 3); add_scen (c0, "P-4,Bw5+%d", k);
+				if (codec == 2 && k <= 10) { c0 = NCF; add_cfg (2, 4, k, 5, 0, 0, 4, 0, 0, 0); add_scen (c0, "P-2,Rx%d/%d,F", k / 2, k + 4); add_scen (c0, "P-3,Sx0/%d,F", k + 3); }
 			}
 	}
 	if (strstr (which, "rs")) {
